@@ -646,7 +646,7 @@ impl C03 {
     /// steps, line-number operands, TAB / SPC -- fed the edges of each numeric type, directly and through variables
     /// of every type. Whatever the statement does, it must be a value or a BASIC error and the prompt must return.
     fn boundary_args_case(&self, rng: &mut Rng, ctx: &mut Ctx) {
-        const TEMPLATES: [&str; 44] = [
+        const TEMPLATES: [&str; 52] = [
             "PRINT TAB({});\"X\"", "PRINT SPC({});\"X\"", "PRINT STRING$({},\"ab\")", "PRINT STRING$(3,{})", "PRINT STRING$({},{})",
             "PRINT LEFT$(\"héllo\",{})", "PRINT RIGHT$(\"héllo\",{})", "PRINT MID$(\"héllo\",{})", "PRINT MID$(\"héllo\",{},{})", "PRINT MID$(\"héllo\",2,{})",
             "A$=\"héllo\":MID$(A$,{})=\"xy\":PRINT A$", "A$=\"héllo\":MID$(A$,{},{})=\"xyz\":PRINT A$", "PRINT CHR$({})", "PRINT HEX$({});OCT$({})", "PRINT INSTR({},\"banana\",\"an\")",
@@ -656,6 +656,9 @@ impl C03 {
             "LIST {}", "LIST {}-{}", "DELETE {}", "RESTORE {}", "GOTO {}",
             "RUN {}", "RENUM {},{},{}", "PRINT RND({})", "PRINT SQR({});LOG({});EXP({})", "PRINT {}^{}",
             "A%={}:PRINT A%", "PRINT STR$({});VAL(STR$({}))", "PRINT SPC({});TAB({});POS(0)", "PRINT LEN(STRING$({},65))",
+            // letter ranges the wrong way round, single letters, the whole alphabet
+            "DEFINT Z-A", "DEFSTR M-D:PRINT 1", "DEFDBL B-A", "DEFSNG Y-C:Y={}", "DEFINT A-A:DEFINT Z-Z:A={}", "DEFSTR A-Z:A=\"x\":PRINT A",
+            "A$=\"HELLO\":MID$(A$,2,{})=\"xyz\":PRINT A$", "ERASE Q:ERASE Q",
         ];
         const VALUES: [&str; 34] = [
             "-32768", "-32767-1", "-32767", "-256", "-255", "-1", "-0.5", "0", "0.5", "1", "2.99999999#", "254", "255", "256", "257", "32766", "32767", "32767.5",
@@ -727,8 +730,8 @@ impl C03 {
         let mut s = Session::new();
         let mut script: Vec<String> = vec![];
         s.drain(8);
-        let short_by = rng.range(0, 70) as usize;
-        let target = 65_503usize.saturating_sub(short_by);
+        // (on both sides of the mark: 65,433 .. 65,545 opcodes)
+        let target = (65_503i64 + rng.range(-70, 42)) as usize;
         let big = |terms: usize, n: usize| -> String { format!("{} A={}", n, vec!["1"; terms.max(1)].join("+")) };
         let mut next_line = 1usize;
         let mut size = 0usize;
@@ -1579,6 +1582,10 @@ impl Prop for C18 {
             self.slots_case(ctx)
         } else if i % 5 == 0 {
             self.zeroing_case(rng, ctx)
+        } else if i % 50 == 7 {
+            // programs within a few dozen opcodes of the code pool's limit, on both sides of it, followed by direct
+            // statements: whatever is refused, the session stays usable (the C03 driver; its end check asks for PRINT 7*6)
+            C03.nearly_full_case(rng, ctx)
         } else if i % 5 == 1 {
             self.waits_case(rng, ctx)
         } else {
